@@ -70,7 +70,7 @@ fn run_case(i: usize, case: &Value) -> Value {
         let mut cap = Cap::new(match (v / 2) % 4 {
             0 => vec![],
             1 => vec![1],
-            2 => vec![7, 1, 64],
+            2 => vec![7, 0, 1, 64], // 0: the call is interrupted and repeated
             _ => vec![3],
         });
         let r = catch(|| {
